@@ -46,7 +46,8 @@ def run(v):
     v.cov["rule"] = ("Families of schema versions (Versions.tla / MC_Versions.tla): flat extensible SEQUENCEs with 1-2 root components and "
                      "0..%d appended additions (OCTET STRING / OPTIONAL / DEFAULT), CHOICE with appended alternatives, ENUMERATED with appended "
                      "items, and the versioned SEQUENCE nested inside an extension addition, inside a CHOICE extension alternative, as a root "
-                     "component and as a list element. Every ordered (writer version, reader version) pair x every value of the writer version "
+                     "component and as a list element, and wide families (ENUMERATED / CHOICE / SEQUENCE with 62.. additions: versions on both sides of "
+                     "addition index 64, where the normally small number changes its form). Every ordered (writer version, reader version) pair x every value of the writer version "
                      "(all presence patterns x addition payloads of %s octets, i.e. every interesting first length octet). Expected value = "
                      "Versions!Conv; a sentinel INTEGER(0..7) written behind the message in the same stream must be read back with nothing "
                      "remaining. Non-trivial = cross-version cases. T: the per-call events of the real reader on every cross-version message "
